@@ -90,7 +90,15 @@ theorem claimBoostedYields_hold (s : St) (u : Nat) (h : Nat → Nat → Nat) :
       (claimBoostedYields s u).map (fun r => ({ r.1 with hold := h }, r.2)) := by
   unfold claimBoostedYields
   cases hc : s.b.cfg with
-  | none => simp only [Option.map_some]
+  | none =>
+    simp only [updateEnergyAndProgress, St.week]
+    cases Weekly.weekOf s.epoch s.firstWeekStart with
+    | none => rfl
+    | some W =>
+      simp only [Option.bind_eq_bind, Option.bind_some]
+      cases Weekly.updateEnergyAndProgress s.w u W (Energy.queried (s.energy u) s.epoch) with
+      | none => rfl
+      | some g => rfl
   | some cfg =>
     simp only [St.week]
     cases Weekly.weekOf s.epoch s.firstWeekStart with
